@@ -80,7 +80,16 @@ REQUIRED_PROBES = {
 }
 
 # coverage spaces that a batch must reach completely (enumerated by run index), per property
+_C02 = {}
+for _k in ("sum.f", "prod.f", "latest.f"):
+    for _n in range(1, 6):
+        _C02["C02.cat:%s:%d" % (_k, _n)] = 4 ** _n            # every {E1,E2,absent,present} assignment, N = 1..5
+for _k in ("sum2.f", "prod2.f", "diff.f", "quot.f", "exp.f", "sum2.q", "prod2.q", "diff.q", "quot.q"):
+    _C02["C02.cat:%s:2" % _k] = 16
+_C02.update({"C02.cat:and:2": 25, "C02.cat:or:2": 25, "C02.cat:not:1": 5, "C02.cat:if.f:2": 20, "C02.cat:ifelse.f:3": 80,
+             "C02.cat:n2e.f:1": 4, "C02.cat:n2v.f:1": 4, "C02.cat:expirer.f:1": 4})
 REQUIRED_CELLS = {
+    "C02": _C02,
     "C09": {"C09": 3590},            # every (reachable matching, connect/disconnect) pair on 2..6 terminals
     "C16": {"C16.nary": 1020, "C16.axle": 9, "C16.terminal": 6},
 }
